@@ -12,7 +12,7 @@ LEVEL_TEXT = (
     " a file is marked visited before it is handed out and the test and the mark use the same value; includes are resolved"
     " relative to the including file first and through the libraries only on failure; an unresolvable include always yields"
     " the error located at the include; user-input classification compares canonical paths; only named files are analysed and"
-    " label-less non-errors never pass the file filter."
+    " label-less non-errors never pass the file filter. Include resolution and take_next are evaluated on a model file system (including-file first, library directory, library file by bare name, everything else the error, resolution base unchanged, queued paths canonical); the library list reaches the file stack unchanged."
 )
 NOT_DECIDED = "symlink semantics of the operating system; that canonicalisation itself identifies equal files."
 TRUSTED = ["syn parser", "fs::canonicalize returns one spelling per file"]
